@@ -146,13 +146,20 @@ def run(ctx):
         R = np.array([[a * a + b * b - cc * cc - d * d, 2 * (b * cc + a * d), 2 * (b * d - a * cc)],
                       [2 * (b * cc - a * d), a * a - b * b + cc * cc - d * d, 2 * (cc * d + a * b)],
                       [2 * (b * d + a * cc), 2 * (cc * d - a * b), a * a - b * b - cc * cc + d * d]])
-        R2 = rot_axis('xyz'[t % 3], 17.0 + 31 * t)
+        # every other second rotation is a SMALL one (hundredths of a degree up to a fraction of a degree): a rotation is a rotation however small
+        R2 = rot_axis('xyz'[int(rng.integers(0, 3))], 17.0 + 31 * t if t % 2 == 0 else float(rng.choice([0.2, 0.1, 0.05, 0.01, -0.15, 1e-3])))
         try:
             t1 = base.transform(R)
             t12 = t1.transform(R2)
             tdirect = base.transform(R2 @ R)
             if np.abs(t12.Cij - tdirect.Cij).max() > 1e-8 * 500:
                 ctx.violation('rotation is not a group action for general rotations', 'max diff %r' % np.abs(t12.Cij - tdirect.Cij).max())
+            t2 = base.transform(R2)
+            e2s = R2 @ strains[0] @ R2.T
+            w2 = np.einsum('ijkl,ij,kl->', t2.Cijkl, e2s, e2s)
+            w0s = np.einsum('ijkl,ij,kl->', Cijkl, strains[0], strains[0])
+            if abs(w2 - w0s) > 1e-9 * abs(w0s):
+                ctx.violation('strain energy not invariant under a general co-rotation', 'second rotation: %r vs %r' % (w2, w0s))
             back = t1.transform(R.T)
             if np.abs(back.Cij - Cgen).max() > 1e-8 * 500:
                 ctx.violation('inverse rotation does not restore the stiffness (general rotation)', '')
@@ -166,6 +173,24 @@ def run(ctx):
                 ctx.violation('Hill moduli not invariant under a general rotation', '')
         except Exception as ex:
             ctx.violation('transform raised %s on a proper rotation' % excname(ex), repr(ex)[:200])
+    # ---- the same tensor in a much smaller / larger unit (power of two: every representation scales exactly or to rounding) ----------
+    for k_ in (-40, -27, 30):
+        ctx.count()
+        ctx.nontriv(('scale', k_))
+        sc_ = 2.0 ** k_
+        try:
+            es = EC(Cij=Cgen * sc_)
+            if not np.array_equal(es.Cij, Cgen * sc_) or not np.array_equal(EC(Cijkl=base.Cijkl * sc_).Cij, Cgen * sc_) or \
+               not np.array_equal(EC(Cij9=base.Cij9 * sc_).Cij, Cgen * sc_):
+                ctx.violation('representations of a stiffness of small or large magnitude do not round-trip', 'scale 2^%d' % k_)
+            if np.abs(es.Sij * sc_ - base.Sij).max() > 1e-9 * np.abs(base.Sij).max() or \
+               np.abs(EC(Sij=base.Sij / sc_).Cij / sc_ - Cgen).max() > 1e-9 * np.abs(Cgen).max():
+                ctx.violation('compliance of a stiffness of small or large magnitude is not its inverse', 'scale 2^%d' % k_)
+            iso = EC(E=2.9 * sc_, nu=0.45)
+            if abs(iso.Cij[3, 3] - (iso.Cij[0, 0] - iso.Cij[0, 1]) / 2) > 1e-9 * abs(iso.Cij[0, 0]) or iso.Cij[3, 3] <= 0:
+                ctx.violation('isotropic pair (E, nu) gives the wrong stiffness', 'scale 2^%d: C44 %r, (C11-C12)/2 %r' % (k_, iso.Cij[3, 3], (iso.Cij[0, 0] - iso.Cij[0, 1]) / 2))
+        except Exception as ex:
+            ctx.violation('stiffness of small or large magnitude raised %s' % excname(ex), repr(ex)[:200] + ' scale 2^%d' % k_)
     # ---- crystal systems: named constants sit where they are named, tensor invariant under the point group ------------------
     G = {k: [np.array(g, dtype=float) for g in v] for k, v in gens['gens'].items()}
     extra = {'hexagonal': [rot_axis('z', 60.0)], 'rhombohedral': [rot_axis('z', 120.0)], 'isotropic': [rot_axis('x', 33.0), rot_axis('z', 71.0)]}
